@@ -20,6 +20,7 @@
     * `inWindow h` of a stored header is the negation of "older than the sampling window".
 -/
 import Lumina.Proofs.SyncerGate
+import Lumina.Proofs.ComposeSyncerGate
 import Lumina.Gen.C25
 
 namespace Lumina.Props.C25
@@ -185,5 +186,79 @@ theorem pre_fix_counterexample :
   intro h1 h2 hle h
   simp only [decide_eq_true_eq] at h ⊢
   omega
+
+/-! ### strengthening S7: the fix costs no liveness
+
+  C25 is a "never requests" property; the repaired gate could satisfy it by never requesting
+  anything.  The two theorems below (lemmas: `Proofs/ComposeSyncerGate.lean`) show it does not
+  withhold anything the sampling window needs; `Props/C38.lean`
+  (`converges_under_fairness_with_pruning_partial`) uses them for convergence with the pruner
+  running. -/
+
+/-- **The sampling-window gate, including the branch added by the fix, blocks only batches outside
+    the window.**  For every state the worker can read with well-formed stored / pruned sets, header
+    age monotone in the height, and every pruned height outside the sampling window or with a
+    synced height directly below it (what the pruner's safety condition C35 leaves behind): if
+    `fetch_next_batch` returns without a request because `get_by_height(end + 1)` is stored and
+    outside the window (`boundOutsideWindow`) or — the repaired branch — is `NotFound` for a synced
+    height (`boundPruned`), then every height `1 ≤ m ≤ head` that is not synced is outside the
+    sampling window. -/
+theorem fix_costs_no_liveness (slowMin : Nat) (i : GateIn) (old : Nat → Bool) (w : Idle) (H m : Nat)
+    (hst : RInv i.stored) (hpr : RInv i.pruned)
+    (hwin : ∀ h, i.inWindow h = !old h)
+    (hmono : ∀ h1 h2, h1 ≤ h2 → old h2 = true → old h1 = true)
+    (hprh : ∀ p, mem i.pruned p → old p = true ∨ mem i.stored (p - 1) ∨ mem i.pruned (p - 1))
+    (h : fetchDecision slowMin i = .ok (.idle w))
+    (hw : w = .boundOutsideWindow ∨ w = .boundPruned)
+    (hhead : i.head = some H) (hm1 : 1 ≤ m) (hm2 : m ≤ H)
+    (hm3 : ¬ (mem i.stored m ∨ mem i.pruned m)) : old m = true :=
+  Lumina.Proofs.ComposeSyncerGate.window_gate_blocks_only_outside_window hst hpr hwin hmono hprh h hw
+    hhead hm1 hm2 hm3
+
+/-- **Progress of the repaired code with pruned heights and an armed slow-sync height.**  No batch
+    ongoing, a peer connected, batch size ≥ 1; pruned heights and the slow-sync height outside the
+    sampling window (pruning window ≥ sampling window), some stored height inside it: whenever a
+    height `1 ≤ m ≤ head` inside the window is not stored, a request IS scheduled. -/
+theorem fetch_progress_with_pruned_heights (slowMin : Nat) (i : GateIn) (old : Nat → Bool) (H m : Nat)
+    (hst : RInv i.stored) (hpr : RInv i.pruned) (hong : i.ongoing = false)
+    (hpeers : i.connectedPeers ≠ 0) (hhead : i.head = some H) (hH : H < U64_MAX)
+    (hbs : 1 ≤ i.batchSize)
+    (hwin : ∀ h, i.inWindow h = !old h)
+    (hmono : ∀ h1 h2, h1 ≤ h2 → old h2 = true → old h1 = true)
+    (hprOld : ∀ p, mem i.pruned p → old p = true)
+    (hslow : ∀ h0, i.slowSync = some h0 → old h0 = true)
+    (hfresh : ∃ y, mem i.stored y ∧ old y = false)
+    (hm1 : 1 ≤ m) (hm2 : m ≤ H) (hm3 : ¬ mem i.stored m) (hm4 : old m = false) :
+    ∃ r, fetchDecision slowMin i = .ok (.request r) :=
+  Lumina.Proofs.ComposeSyncerGate.gate_progress_pruned hst hpr hong hpeers hhead hH hbs hwin hmono
+    hprOld hslow hfresh hm1 hm2 hm3 hm4
+
+/-- non-vacuity: the situation the property names (bound 180 old and pruned, decision
+    `boundPruned`) meets the hypotheses of `fix_costs_no_liveness` … -/
+example : ∀ p, mem examplePrunedBound.pruned p →
+    decide (p ≤ 200) = true ∨ mem examplePrunedBound.stored (p - 1) ∨ mem examplePrunedBound.pruned (p - 1) := by
+  rintro p ⟨r, hr, h1, h2⟩
+  simp [examplePrunedBound] at hr
+  subst hr
+  left
+  simp at h1 h2 ⊢
+  omega
+
+/-- pruned heights 50..60 and an armed slow-sync height 70, all older than the window edge 100;
+    101..179 missing and inside the window -/
+def examplePrunedBelowWindow : GateIn where
+  ongoing := false
+  connectedPeers := 1
+  head := some 300
+  stored := [(180, 300)]
+  pruned := [(50, 60)]
+  sampled := []
+  batchSize := 50
+  slowSync := some 70
+  inWindow := fun h => !decide (h ≤ 100)
+
+/-- … and the repaired code does request the batch below the stored in-window bound, pruned heights
+    and armed slow-sync height notwithstanding (an instance of `fetch_progress_with_pruned_heights`) -/
+example : fetchDecision 50 examplePrunedBelowWindow = .ok (.request (130, 179)) := by rfl
 
 end Lumina.Props.C25
